@@ -181,3 +181,228 @@ theorem C15_rejected_iff (input : DataType) : (validate input ≠ []) ↔ ∃ m,
     simp at hm
 
 end O2o
+
+namespace O2o
+
+theorem ext_validateChildParentsAttrs (cas : List ChildParentsAttr) (tps : List TypePath) : Ext (validateChildParentsAttrs cas tps) := by
+  intro es m hm
+  unfold validateChildParentsAttrs
+  apply ext_foldl_snd cas
+  · intro ca s es m hm
+    simp only
+    apply ext_foldl_snd ca.childParents
+    · intro cd s es m hm
+      simp only
+      split
+      · exact mem_insert_of_mem _ _ _ hm
+      · exact hm
+    · split
+      · simp only
+        repeat' split
+        all_goals ext_tac
+      · exact hm
+  · split
+    · exact mem_insert_of_mem _ _ _ hm
+    · exact hm
+
+theorem ext_validateParentAttrs (named : Bool) (pas : List ParentAttr) (byKind : List (TraitAttrCore × Kind)) :
+    Ext (validateParentAttrs named pas byKind) := by
+  intro es m hm
+  unfold validateParentAttrs
+  refine mem_foldl_of_mem _ _ _ _ (fun pa es hm => ?_) hm
+  simp only
+  refine mem_foldl_of_mem _ _ _ _ (fun x es hm => ?_) ?_
+  · split
+    · refine mem_foldl_of_mem _ _ _ _ (fun f es hm => ?_) hm
+      refine mem_foldl_of_mem _ _ _ _ (fun i es hm => ?_) hm
+      split
+      · exact mem_insert_of_mem _ _ _ hm
+      · exact hm
+    · exact hm
+  · refine mem_foldl_of_mem _ _ _ _ (fun x es hm => ?_) hm
+    split
+    · refine mem_foldl_of_mem _ _ _ _ (fun f es hm => ?_) hm
+      split
+      · exact mem_insert_of_mem _ _ _ hm
+      · exact hm
+    · exact hm
+
+theorem ext_checkChildErrors (ca : ChildAttr) (sa : DataTypeAttrs) (tp : TypePath) : Ext (checkChildErrors ca sa tp) := by
+  intro es m hm
+  unfold checkChildErrors
+  refine mem_foldl_of_mem _ _ _ _ (fun path es hm => ?_) hm
+  split
+  · split
+    · exact mem_insert_of_mem _ _ _ hm
+    · exact hm
+  · exact mem_insert_of_mem _ _ _ hm
+
+theorem ext_memberNameCheck (f : Field) (ty : TypePath) (k : Kind) (msg : String) : Ext (memberNameCheck f ty k msg) := by
+  intro es m hm
+  unfold memberNameCheck
+  repeat' split
+  all_goals ext_tac
+
+theorem ext_ghostDefaultPass (fromTps : List TypePath) (field : Field) : Ext (ghostDefaultPass fromTps field) := by
+  intro es m hm
+  unfold ghostDefaultPass
+  simp only
+  have hg : m ∈ field.attrs.ghostAttrs.foldl (fun es ga =>
+      if ga.attr.action.isSome then es else
+      match ga.attr.containerTy with
+      | some tp => if fromTps.contains tp then es.insert
+          ("Member instruction #[ghost(...)] for member '" ++ field.member.str ++ "' should provide default value for type " ++ tp.pathStr) else es
+      | none => fromTps.foldl (fun es tp => es.insert
+          ("Member instruction #[ghost(...)] for member '" ++ field.member.str ++ "' should provide default value for type " ++ tp.pathStr)) es) es := by
+    refine mem_foldl_of_mem _ _ _ _ (fun ga es hm => ?_) hm
+    split
+    · exact hm
+    · split
+      · split
+        · exact mem_insert_of_mem _ _ _ hm
+        · exact hm
+      · refine mem_foldl_of_mem _ _ _ _ (fun tp es hm => ?_) hm
+        exact mem_insert_of_mem _ _ _ hm
+  split
+  · split
+    · exact mem_insert_of_mem _ _ _ hg
+    · exact hg
+  · exact hg
+
+theorem ext_childPass (sa : DataTypeAttrs) (tps into : List TypePath) (ca : ChildAttr) : Ext (childPass sa tps into ca) := by
+  intro es m hm
+  unfold childPass
+  split
+  · simp only
+    split
+    · apply ext_checkChildErrors
+      split
+      · exact mem_insert_of_mem _ _ _ hm
+      · exact hm
+    · split
+      · exact mem_insert_of_mem _ _ _ hm
+      · exact hm
+  · refine mem_foldl_of_mem _ _ _ _ (fun tp es hm => ?_) hm
+    exact ext_checkChildErrors _ _ _ _ _ hm
+
+theorem ext_namePass (input : Struct) (dta : TraitAttrCore) (k : Kind) : Ext (namePass input dta k) := by
+  intro es m hm
+  unfold namePass
+  split
+  · refine mem_foldl_of_mem _ _ _ _ (fun field es hm => ?_) hm
+    exact ext_memberNameCheck _ _ _ _ _ _ hm
+  · exact hm
+
+theorem ext_validateFields (input : Struct) (byKind : List (TraitAttrCore × Kind)) (tps : List TypePath) :
+    Ext (validateFields input byKind tps) := by
+  intro es m hm
+  unfold validateFields
+  simp only
+  split
+  · refine mem_foldl_of_mem _ _ _ m (fun x es hm => ext_namePass input x.1 x.2 es m hm) ?_
+    refine mem_foldl_of_mem _ _ _ m (fun ca es hm => ext_childPass _ _ _ ca es m hm) ?_
+    exact mem_foldl_of_mem _ _ _ m (fun field es hm => ext_ghostDefaultPass _ field es m hm) hm
+  · refine mem_foldl_of_mem _ _ _ m (fun ca es hm => ext_childPass _ _ _ ca es m hm) ?_
+    exact mem_foldl_of_mem _ _ _ m (fun field es hm => ext_ghostDefaultPass _ field es m hm) hm
+
+theorem ext_variantNamePass (v : Variant) (a : TraitAttr) (k : Kind) : Ext (variantNamePass v a k) := by
+  intro es m hm
+  unfold variantNamePass
+  split
+  · refine mem_foldl_of_mem _ _ _ _ (fun field es hm => ?_) hm
+    exact ext_memberNameCheck _ _ _ _ _ _ hm
+  · exact hm
+
+theorem ext_validateVariantFields (v : Variant) (dta : DataTypeAttrs) : Ext (validateVariantFields v dta) := by
+  intro es m hm
+  unfold validateVariantFields
+  split
+  · exact mem_foldl_of_mem _ _ _ m (fun x es hm => ext_variantNamePass v x.1 x.2 es m hm) hm
+  · exact hm
+
+end O2o
+
+namespace O2o
+
+theorem ext_validateMember (input : DataType) (isEnum : Bool) (tps : List TypePath) (byKind : List (TraitAttrCore × Kind))
+    (member : DataTypeMember) : Ext (fun es => validateMember input isEnum tps byKind es member) := by
+  intro es m hm
+  unfold validateMember
+  simp only
+  apply ext_validateMemberErrorInstrs
+  have h2 : m ∈ validateDedicatedMemberAttrs (member.attrs.ghostAttrs.map (·.attr.containerTy)) none tps
+      (validateDedicatedMemberAttrs (member.attrs.attrs.map (·.attr.containerTy)) none tps es) :=
+    ext_validateDedicatedMemberAttrs _ _ _ _ _ (ext_validateDedicatedMemberAttrs _ _ _ _ _ hm)
+  cases member with
+  | field f =>
+    simp only
+    apply ext_validateParentAttrs
+    apply ext_validateDedicatedMemberAttrs
+    apply ext_barkAtMemberAttr
+    apply ext_barkAtMemberAttr
+    apply ext_barkAtMemberAttr
+    apply ext_barkAtMemberAttr
+    apply ext_barkAtMemberAttr
+    apply ext_barkAtMemberAttr
+    exact h2
+  | variant v =>
+    simp only
+    refine mem_foldl_of_mem _ _ _ m (fun f es hm => ?_) ?_
+    · apply ext_validateMemberErrorInstrs
+      apply ext_validateDedicatedMemberAttrs
+      apply ext_validateDedicatedMemberAttrs
+      exact hm
+    · apply ext_validateDedicatedMemberAttrs
+      apply ext_validateDedicatedMemberAttrs
+      apply ext_validateDedicatedMemberAttrs
+      apply ext_barkAtMemberAttr
+      exact h2
+
+/-- everything that happens in `validate` after the two struct-attribute stages only adds diagnostics -/
+theorem validate_tail_ext (input : DataType) (es : Errors) (m : String) (hm : m ∈ es) :
+    m ∈ (let attrs := input.attrs
+         let isEnum := match input with | .enum _ => true | .struct _ => false
+         let typePaths := attrs.attrs.map (·.core.ty)
+         let es := validateKinds.foldl (fun es k => validateGhostAttrs k attrs.ghostsAttrs typePaths es) es
+         let es := validateChildParentsAttrs attrs.childParentsAttrs typePaths es
+         let es := validateWhereAttrs attrs.whereAttrs typePaths es
+         let byKind := attrsByKind attrs
+         let es := input.members.foldl (validateMember input isEnum typePaths byKind) es
+         match input with
+         | .struct s => validateFields s byKind typePaths es
+         | .enum e => e.variants.foldl (fun es v => validateVariantFields v attrs es) es) := by
+  simp only
+  have h1 := mem_foldl_of_mem validateKinds (fun es k => validateGhostAttrs k input.attrs.ghostsAttrs (input.attrs.attrs.map (·.core.ty)) es) es m
+    (fun k es hm => ext_validateGhostAttrs _ _ _ es m hm) hm
+  have h2 := ext_validateChildParentsAttrs input.attrs.childParentsAttrs (input.attrs.attrs.map (·.core.ty)) _ m h1
+  have h3 := ext_validateWhereAttrs input.attrs.whereAttrs (input.attrs.attrs.map (·.core.ty)) _ m h2
+  have h4 := mem_foldl_of_mem input.members
+    (validateMember input (match input with | .enum _ => true | .struct _ => false) (input.attrs.attrs.map (·.core.ty)) (attrsByKind input.attrs)) _ m
+    (fun member es hm => ext_validateMember _ _ _ _ member es m hm) h3
+  cases input with
+  | struct s => exact ext_validateFields _ _ _ _ _ h4
+  | enum e => exact mem_foldl_of_mem _ _ _ m (fun v es hm => ext_validateVariantFields v _ es m hm) h4
+
+theorem mem_foldl_of_step {α} (xs : List α) (step : Errors → α → Errors) (es : Errors) (m : String) (x : α) (hx : x ∈ xs)
+    (hext : ∀ y es, m ∈ es → m ∈ step es y) (hstep : ∀ es, m ∈ step es x) : m ∈ xs.foldl step es := by
+  induction xs generalizing es with
+  | nil => cases hx
+  | cons y ys ih =>
+    simp only [List.foldl_cons]
+    cases hx with
+    | head => exact mem_foldl_of_mem _ _ _ _ hext (hstep es)
+    | tail _ h => exact ih _ h
+
+/-- C15 (R3a, end to end): a fallible trait instruction without an error type — for any kind it applies to, anywhere
+    among the trait instructions, whatever else the input contains — makes `validate` report it -/
+theorem C15_complete_R3a_validate (input : DataType) (k : Kind) (a : TraitAttrCore)
+    (hk : k ∈ validateKinds) (ha : a ∈ input.attrs.iterForKindCore k true) (herr : a.errTy = none) :
+    "Error type should be specified for fallible instruction." ∈ validate input := by
+  unfold validate
+  apply validate_tail_ext
+  refine mem_foldl_of_step _ _ _ _ k hk (fun y es hm => ext_validateStructAttrs _ _ es _ hm) (fun es => ?_)
+  obtain ⟨pre, post, hsplit⟩ := List.append_of_mem ha
+  rw [hsplit]
+  exact C15_complete_R3a pre post a es herr
+
+end O2o
